@@ -287,6 +287,33 @@ def atmosphere(rep, tier, timeout, kinds=None):
             return model.differs(v, Mv * a, 1e-9), "altitude %.6g ft, M = %.4g: v = %.9g m/s, M a = %.9g m/s (each in its declared units, converted to SI)" % (h, Mv, v, Mv * a)
         if kind == "pos":
             return min(T, P, rho, a) <= 0, "altitude %.6g: T,P,rho,a = %r" % (h, (T, P, rho, a))
+        if kind in ("deriv", "ident"):
+            # the partials the real component reports against central differences of its own outputs (raw declared units)
+            import warnings
+
+            import openmdao.api as om
+
+            name = ob.meta["out"]
+            wrt = "Mach_number" if "dMach" in ob.meta["family"] else "altitude"
+            if "v == M a" in ob.meta["family"]:
+                return None, "identity between outputs: replayed under kind vMa"
+
+            def outs(hh, mm):
+                rr = sc.real({"altitude": [hh], "Mach_number": [mm]})
+                return float(rr[name][0])
+
+            pr = om.Problem(reports=False)
+            pr.model.add_subsystem("c", type(sc.comp)(), promotes=["*"])
+            with warnings.catch_warnings():
+                warnings.simplefilter("ignore")
+                pr.setup()
+                pr.set_val("altitude", h)
+                pr.set_val("Mach_number", Mv)
+                pr.run_model()
+                ana = float(np.ravel(pr.compute_totals(of=[name], wrt=[wrt], return_format="array"))[0])
+            step = 1e-2 if wrt == "altitude" else 1e-6
+            fd = (outs(h + step, Mv) - outs(h - step, Mv)) / (2 * step) if wrt == "altitude" else (outs(h, Mv + step) - outs(h, Mv - step)) / (2 * step)
+            return abs(ana - fd) > 1e-5 * max(abs(ana), abs(fd), 1e-12), "altitude %.6g ft, M = %.4g: reported d%s/d%s = %.9g, central difference %.9g" % (h, Mv, name, wrt, ana, fd)
         return None, "no numeric replay for kind %s" % kind
 
     if kinds is not None:
